@@ -38,27 +38,41 @@ def check(run):
     types = K.types_of(repo)
     for rel, loop_form in ((K.PY_U, True), (K.TC_U, False)):
         m2s, s2m = repo.func(rel, 'map_to_state'), repo.func(rel, 'state_to_map')
-        a, b = perm(run, m2s, loop_form), perm(run, s2m, loop_form)
-        if a is None or b is None:
-            continue
-        for f, got, want, what in ((m2s, a, WANT_M2S, 'X images (rows 2i) become destabilizers (rows N+i), Z images (rows 2i+1) stabilizers (rows i)'),
-                                   (s2m, b, {(s, t) for t, s in WANT_M2S}, 'destabilizers (rows N+i) become X images (rows 2i), stabilizers (rows i) Z images (rows 2i+1)')):
-            if len(got) != 2:
-                run.violation('R13.perm', f, f.name, 'both the string array and the phase array must be permuted (found %s)' % sorted(got))
-                continue
-            for arr, pairs in sorted(got.items()):
-                run.check(pairs == want, 'R13.perm', f, '%s: %s' % (arr, sorted(pairs)), '%s: %s is permuted as %s' % (what, arr, sorted(pairs)))
-            vals = list(got.values())
-            run.check(vals[0] == vals[1], 'R13.perm', f, 'gs vs ps', 'strings and phases must be permuted identically')
-        if len(a) == 2 and len(b) == 2:
-            inv = all({(s, t) for t, s in pa} == pb for pa, pb in zip([a[k] for k in sorted(a)], [b[k] for k in sorted(b)]))
-            run.check(inv, 'R13.perm', s2m, 'inverse', 'state_to_map must be the inverse permutation of map_to_state')
+        # both kernels are executed by the checker's interpreter on row labels for N = 2 and N = 3 (loops, slices, index vectors,
+        # cat / stack forms alike): X images (rows 2i) become destabilizers (rows N+i), Z images (rows 2i+1) stabilizers (rows i),
+        # identically for strings and phases; state_to_map is the inverse
+        for Nq in (2, 3):
+            res = {}
+            for f in (m2s, s2m):
+                try:
+                    res[f.name] = parallel.permutation_exec(f, Nq)
+                except Undecidable as e:
+                    run.undecided('R13.perm', f, f.name, 'the row permutation could not be interpreted (N = %d): %s' % (Nq, e))
+            want_m = {'g': [None] * (2 * Nq), 'p': [None] * (2 * Nq)}
+            for i in range(Nq):
+                for c in 'gp':
+                    want_m[c][Nq + i] = '%s%d' % (c, 2 * i)
+                    want_m[c][i] = '%s%d' % (c, 2 * i + 1)
+            want_s = {'g': [None] * (2 * Nq), 'p': [None] * (2 * Nq)}
+            for i in range(Nq):
+                for c in 'gp':
+                    want_s[c][2 * i] = '%s%d' % (c, Nq + i)
+                    want_s[c][2 * i + 1] = '%s%d' % (c, i)
+            for f, want, what in ((m2s, want_m, 'X images (rows 2i) become destabilizers (rows N+i), Z images (rows 2i+1) stabilizers (rows i)'),
+                                  (s2m, want_s, 'destabilizers (rows N+i) become X images (rows 2i), stabilizers (rows i) Z images (rows 2i+1)')):
+                if f.name not in res:
+                    continue
+                g, p_ = res[f.name]
+                run.check(g == want['g'], 'R13.perm', f, 'strings, N=%d: %s' % (Nq, g), '%s: the strings come out as %s' % (what, g))
+                run.check(p_ == want['p'], 'R13.perm', f, 'phases, N=%d: %s' % (Nq, p_), '%s: the phases come out as %s' % (what, p_))
+                run.check([x[1:] for x in g] == [x[1:] for x in p_], 'R13.perm', f, 'gs vs ps, N=%d' % Nq, 'strings and phases must be permuted identically')
+            if len(res) == 2:
+                gm = res['map_to_state'][0]
+                gs_ = res['state_to_map'][0]
+                back = [gm[int(x[1:])] if x else None for x in gs_]
+                run.check(back == ['g%d' % i for i in range(2 * Nq)], 'R13.perm', s2m, 'inverse, N=%d' % Nq, 'state_to_map must be the inverse permutation of map_to_state')
         for f in (m2s, s2m):
             bind.check_function_calls(run, repo, f)
-            if loop_form:
-                loops = [st for st, _ in walk(f.node) if isinstance(st, ast.For)]
-                ok = all(norm(l.iter).replace(' ', '') in ('range(N)', 'range(0,N)') for l in loops)      # one loop or several (fission), or slices
-                run.check(ok, 'R13.perm', f, 'for i in range(N)', 'all N qubits are converted')
             rets = [st.value for st, _ in walk(f.node) if isinstance(st, ast.Return)]
             run.check(len(rets) == 1 and isinstance(rets[0], ast.Tuple) and [bind.expr_role(f, e) for e in rets[0].elts] == ['STRING', 'PHASE'],
                       'R2.ret', f, 'return', 'the conversion returns (strings, phases)')
@@ -242,7 +256,7 @@ def check(run):
             entries.append(repo.func(rel, n))
     entries.append(repo.func(K.PY_S, 'random_bit_state'))
     resolve.check_cone(run, repo, entries, 'duality and constructors')
-    run.floor('R13.perm', 14)
+    run.floor('R13.perm', 28)
     run.floor('R18', 22)
     run.floor('R2.rank', 12)
     run.floor('R11.commute', 4)
